@@ -60,10 +60,11 @@ def raceWitness (tbl : List Access) : Option (Access × Option Access) :=
   | some a =>
     some (a, tbl.find? fun b => b.field == a.field && (a.write || b.write) && !b.init && !excl a b)
 
-/-- READ sites recorded as being outside the lock (function, field).  `rt.SystemLoader` returns `p.systemLoader` AFTER
-    `p.lock.Unlock()`: the read races with the write of `rt.Reset` (`C13_rt_systemloader_read_races`); recorded, not
-    accepted — every other site of the table must follow the discipline -/
-def knownUnlockedReads : List (String × String) := [("rt.SystemLoader", "rt.systemLoader")]
+/-- READ sites recorded as being outside the lock (function, field) — none since fix 27da6a6 in /repo (`rt.SystemLoader`
+    used to return `p.systemLoader` AFTER `p.lock.Unlock()`: a race with the write of `rt.Reset`, see
+    `C13_rt_systemloader_read_raced_before_fix`).  The mechanism stays: a recorded site is exempted, every other site of
+    the table must follow the discipline -/
+def knownUnlockedReads : List (String × String) := []
 
 def exempt (known : List (String × String)) (a : Access) : Bool := !a.write && known.contains (a.fn, a.field)
 
